@@ -1,0 +1,19 @@
+//go:build verif
+
+package lock
+
+// VerifQueueCount returns the number of per-key queue entries the lock currently keeps
+// (held, waited on, or left behind). It returns -1 for a foreign Lock implementation.
+// Compiled only with -tags verif; used by the verification harness (property C28).
+func VerifQueueCount(l Lock) int {
+	ll, ok := l.(*lock)
+	if !ok {
+		return -1
+	}
+	n := 0
+	ll.queues.Range(func(_, _ any) bool {
+		n++
+		return true
+	})
+	return n
+}
